@@ -44,7 +44,7 @@ func c19GenFile(r *Rng, idx int, force int) c19File {
 	var tables []string // global tables that can get members
 	var ltables []string
 	for i := 0; i < nStat; i++ {
-		switch r.Intn(19) {
+		switch r.Intn(20) {
 		case 0:
 			v := nm("Loc")
 			sb.WriteString(fmt.Sprintf("local %s = %d\n", v, i))
@@ -113,6 +113,19 @@ func c19GenFile(r *Rng, idx int, force int) c19File {
 			v, g := nm("inner"), nm("InnerGlob")
 			sb.WriteString(fmt.Sprintf("do\n  local %s = 1\n  %s = %s\nend\n", v, g, v))
 			wants = append(wants, want{g, "global-assigned-in-block", true})
+		case 19:
+			// a table declared through `or` (X = X or { ... }): its keyed fields are members like those of a plain constructor
+			m2 := nm("ormemfn")
+			if r.Bool() {
+				v := nm("GOrTab")
+				sb.WriteString(fmt.Sprintf("%s = %s or { %s = function(x) return x end, level = %d }\n", v, v, m2, i))
+				tables = append(tables, v)
+				wants = append(wants, want{v, "global-table", true}, want{m2, "function-member-in-constructor-behind-or", true})
+			} else {
+				v := nm("LOrTab")
+				sb.WriteString(fmt.Sprintf("local %s = GNothing or {\n  %s = function(y)\n    return y\n  end,\n}\nprint(%s)\n", v, m2, v))
+				wants = append(wants, want{v, "top-level-local-table", false}, want{m2, "function-member-in-constructor-behind-or", true})
+			}
 		case 18:
 			// a local declaration list with Lua 5.4 attributes on names other than the first
 			a, b, cc := nm("LstA"), nm("LstB"), nm("LstC")
